@@ -24,6 +24,7 @@ enum {
   VS_SINK_WRITE,
   VS_COMPUTE_BEGIN,
   VS_COMPUTE_END,
+  VS_ATTACH,
 };
 
 /* Event codes (H6). */
